@@ -10,7 +10,10 @@
 //! pty cli <script>              -> req=<hex;…> res=<result;…> port=<PortState,…>
 //!   script steps: q<kind>.<unit>.<timeout ms>.<a>.<b> | a<hex> | a- | ~<ms> | E | D; same options
 //! pty port r<min ms>.<max ms> <script> -> <PortState,…>   (life cycle of the client channel task)
-//!   script steps: f | o | x | E | D | S | ~<ms>; the device path is a symbolic link to the slave
+//!   script steps: f | o | x | E | D | S | X | ~<ms>; the device path is a symbolic link to the slave
+//! pty rsrv r<min ms>.<max ms> <units> <script> -> <Fail(ms) | Open | Wait(ms) | tx:<hex> | End,…>
+//!   (open / retry life cycle of the RTU server task; its announcements are `tracing` events)
+//!   script steps: f | o | x | q<hex> | b<hex> | S | X | ~<ms>
 //!
 //! For chunks that hold whole frames the output of `pty srv <units> <script>` equals that of
 //! `srv r d000 - <units> <script>` without its ` end=…` suffix. See PROTOCOL.md, section "pty".
@@ -646,7 +649,7 @@ impl PortCase {
 /// present = it succeeds; closing the master hangs up an open port (the client reads EOF).
 /// Steps: `f` / `o` remove / create the link and let a pending wait elapse (the task, held in
 /// `update(Wait(_))`, is released and makes its next attempt), `x` removes the link and closes the
-/// master, `E` / `D` / `S` use the channel handle, `~<ms>` sleeps.  The harness waits for an
+/// master, `E` / `D` / `S` use the channel handle, `X` drops it, `~<ms>` sleeps.  The harness waits for an
 /// announcement exactly when its own action must cause one (an attempt of an enabled channel, a
 /// disable of an enabled channel, the loss of an open port, the shutdown); whatever is announced at
 /// any time is printed in order, so an announcement too many or too few shows in the output.
@@ -673,14 +676,15 @@ async fn run_port(tok: &[&str]) -> String {
     }
     let link = dir.join("port");
     let (tx, rx) = tokio::sync::mpsc::unbounded_channel();
-    let channel = spawn_rtu_client_task(
+    // `None` once the script dropped every handle (`X`)
+    let mut channel = Some(spawn_rtu_client_task(
         link.to_str().unwrap(),
         SerialSettings::default(),
         64,
         doubling_retry_strategy(Duration::from_millis(rmin), Duration::from_millis(rmax)),
         DecodeLevel::nothing(),
         Some(Box::new(PortGate { tx })),
-    );
+    ));
     let mut c = PortCase {
         rx,
         seen: Vec::new(),
@@ -736,25 +740,41 @@ async fn run_port(tok: &[&str]) -> String {
                     c.next(&pty).await;
                 }
             }
+            // commands need a handle: after `X` there is none and nothing happens
             "E" => {
-                let _ = tokio::time::timeout(cmd_wait, channel.enable()).await;
-                if !enabled && !finished {
-                    enabled = true;
-                    // `wait_for_enabled` returns: open attempt
-                    c.next(&pty).await;
+                if let Some(ch) = channel.as_ref() {
+                    let _ = tokio::time::timeout(cmd_wait, ch.enable()).await;
+                    if !enabled && !finished {
+                        enabled = true;
+                        // `wait_for_enabled` returns: open attempt
+                        c.next(&pty).await;
+                    }
                 }
             }
             "D" => {
-                let _ = tokio::time::timeout(cmd_wait, channel.disable()).await;
-                if enabled && !finished {
-                    enabled = false;
-                    c.release();
-                    c.next(&pty).await;
+                if let Some(ch) = channel.as_ref() {
+                    let _ = tokio::time::timeout(cmd_wait, ch.disable()).await;
+                    if enabled && !finished {
+                        enabled = false;
+                        c.release();
+                        c.next(&pty).await;
+                    }
                 }
             }
             "S" => {
-                let _ = tokio::time::timeout(cmd_wait, channel.shutdown()).await;
-                if !finished {
+                if let Some(ch) = channel.as_ref() {
+                    let _ = tokio::time::timeout(cmd_wait, ch.shutdown()).await;
+                    if !finished {
+                        finished = true;
+                        c.release();
+                        c.next(&pty).await;
+                    }
+                }
+            }
+            "X" => {
+                // every handle is dropped: the command queue is closed, the task must end
+                // (announcing `Shutdown`) wherever it is
+                if channel.take().is_some() && !finished {
                     finished = true;
                     c.release();
                     c.next(&pty).await;
@@ -772,7 +792,9 @@ async fn run_port(tok: &[&str]) -> String {
     }
     // end of the case: shutdown (if the script did not ask for it), then the task must end, i.e.
     // drop its listener; anything announced meanwhile is recorded
-    let _ = tokio::time::timeout(cmd_wait, channel.shutdown()).await;
+    if let Some(ch) = channel.as_ref() {
+        let _ = tokio::time::timeout(cmd_wait, ch.shutdown()).await;
+    }
     c.release();
     let deadline = Instant::now() + Duration::from_millis(PORT_WAIT_MS);
     loop {
@@ -804,11 +826,482 @@ async fn run_port(tok: &[&str]) -> String {
     out
 }
 
+// ------------------------------------------------------------------------------------------
+// pty rsrv: open / retry life cycle of the RTU server task
+// ------------------------------------------------------------------------------------------
+
+/// what `RtuServerTask::run` announces about its life cycle (it has no listener: the carrier is
+/// its `tracing` events)
+#[derive(Clone, Debug, PartialEq)]
+enum Announce {
+    /// "unable to open serial port, retrying in <delay> - error: …"
+    Fail(Duration),
+    /// "opened port"
+    Open,
+    /// "waiting <delay> to reopen port"
+    Wait(Duration),
+    /// a message that looks like one of the above but carries no delay that can be extracted
+    Unparsed(String),
+}
+
+/// `{:?}` of a `std::time::Duration` ("40ms", "1.5s", "2.000000001s", "100µs", "7ns") back to
+/// a `Duration`; exact (no floating point)
+fn parse_debug_duration(text: &str) -> Option<Duration> {
+    let split = text.find(|c: char| !(c.is_ascii_digit() || c == '.'))?;
+    let (num, unit) = text.split_at(split);
+    // nanoseconds per unit = 10^exp
+    let exp: u32 = match unit {
+        "ns" => 0,
+        "µs" | "us" => 3,
+        "ms" => 6,
+        "s" => 9,
+        _ => return None,
+    };
+    let (int, frac) = num.split_once('.').unwrap_or((num, ""));
+    if int.is_empty() || frac.len() > exp as usize || num.ends_with('.') {
+        return None;
+    }
+    let int: u128 = int.parse().ok()?;
+    let mut nanos = int.checked_mul(10u128.pow(exp))?;
+    if !frac.is_empty() {
+        let f: u128 = frac.parse().ok()?;
+        nanos = nanos.checked_add(f * 10u128.pow(exp - frac.len() as u32))?;
+    }
+    let secs = u64::try_from(nanos / 1_000_000_000).ok()?;
+    Some(Duration::new(secs, (nanos % 1_000_000_000) as u32))
+}
+
+/// THE one place that knows the wording of the library's log messages (wording is not API: if it
+/// changes, this is what has to follow).  `None`: the message is none of the three announcements.
+fn classify_server_message(msg: &str) -> Option<Announce> {
+    if msg == "opened port" {
+        return Some(Announce::Open);
+    }
+    if let Some(rest) = msg.strip_prefix("waiting ") {
+        if let Some(delay) = rest.strip_suffix(" to reopen port") {
+            return Some(match parse_debug_duration(delay) {
+                Some(d) => Announce::Wait(d),
+                None => Announce::Unparsed(msg.to_string()),
+            });
+        }
+    }
+    if let Some(rest) = msg.strip_prefix("unable to open serial port") {
+        let delay = rest
+            .strip_prefix(", retrying in ")
+            .and_then(|x| x.split_once(" - error").map(|(d, _)| d));
+        return Some(match delay.and_then(parse_debug_duration) {
+            Some(d) => Announce::Fail(d),
+            None => Announce::Unparsed(msg.to_string()),
+        });
+    }
+    // a re-worded announcement would most likely still speak of waiting / retrying
+    if (msg.contains("reopen") || msg.contains("retry")) && msg.contains("port") {
+        return Some(Announce::Unparsed(msg.to_string()));
+    }
+    None
+}
+
+/// `tracing` subscriber of one `pty rsrv` case (thread-local default while the case runs; the
+/// runtime is single-threaded, so the library task logs on this thread): hands every life-cycle
+/// announcement of the server task to the harness, keeps the other messages for diagnostics
+struct Capture {
+    tx: tokio::sync::mpsc::UnboundedSender<Announce>,
+    other: Arc<Mutex<Vec<String>>>,
+}
+
+struct MessageOf(String);
+
+impl tracing::field::Visit for MessageOf {
+    fn record_debug(&mut self, field: &tracing::field::Field, value: &dyn std::fmt::Debug) {
+        if field.name() == "message" {
+            self.0 = format!("{value:?}");
+        }
+    }
+}
+
+impl tracing::Subscriber for Capture {
+    fn enabled(&self, metadata: &tracing::Metadata<'_>) -> bool {
+        *metadata.level() <= tracing::Level::INFO
+    }
+    fn new_span(&self, _span: &tracing::span::Attributes<'_>) -> tracing::span::Id {
+        tracing::span::Id::from_u64(1)
+    }
+    fn record(&self, _span: &tracing::span::Id, _values: &tracing::span::Record<'_>) {}
+    fn record_follows_from(&self, _span: &tracing::span::Id, _follows: &tracing::span::Id) {}
+    fn event(&self, event: &tracing::Event<'_>) {
+        if !event.metadata().target().starts_with("rodbus") {
+            return;
+        }
+        let mut m = MessageOf(String::new());
+        event.record(&mut m);
+        match classify_server_message(&m.0) {
+            Some(a) => {
+                let _ = self.tx.send(a);
+            }
+            // `serial/server.rs` logs nothing but the three announcements: anything else from
+            // there is an announcement that is no longer understood
+            None if event.metadata().target().ends_with("serial::server") => {
+                let _ = self.tx.send(Announce::Unparsed(m.0));
+            }
+            None => self.other.lock().unwrap().push(m.0),
+        }
+    }
+    fn enter(&self, _span: &tracing::span::Id) {}
+    fn exit(&self, _span: &tracing::span::Id) {}
+}
+
+/// the production doubling strategy, every call passed through untouched and written down; the
+/// task owns the object, so its drop tells that the task is over
+struct RetryTap {
+    inner: Box<dyn RetryStrategy>,
+    calls: Arc<Mutex<Vec<String>>>,
+    dropped: Arc<std::sync::atomic::AtomicBool>,
+}
+
+impl RetryStrategy for RetryTap {
+    fn reset(&mut self) {
+        self.inner.reset();
+        self.calls.lock().unwrap().push("Open".into());
+    }
+    fn after_failed_connect(&mut self) -> Duration {
+        let d = self.inner.after_failed_connect();
+        self.calls.lock().unwrap().push(format!("Fail({})", d.as_millis()));
+        d
+    }
+    fn after_disconnect(&mut self) -> Duration {
+        let d = self.inner.after_disconnect();
+        self.calls.lock().unwrap().push(format!("Wait({})", d.as_millis()));
+        d
+    }
+}
+
+impl Drop for RetryTap {
+    fn drop(&mut self) {
+        self.dropped.store(true, std::sync::atomic::Ordering::SeqCst);
+    }
+}
+
+/// where the server task is, as far as the harness can tell from what it did and saw itself
+#[derive(Clone, Copy, PartialEq)]
+enum SrvPhase {
+    /// spawned, nothing announced yet: the first open attempt is still to come
+    Starting,
+    /// the last announcement carried a delay: the task sleeps
+    Waiting,
+    /// the last announcement was "opened port"
+    Open,
+    /// shutdown sent / every handle dropped
+    Done,
+}
+
+struct RsrvCase {
+    rx: tokio::sync::mpsc::UnboundedReceiver<Announce>,
+    other: Arc<Mutex<Vec<String>>>,
+    dropped: Arc<std::sync::atomic::AtomicBool>,
+    /// everything observed so far, in order
+    seen: Vec<String>,
+    /// the announcements alone (compared with the strategy's calls at the end)
+    announced: Vec<String>,
+    phase: SrvPhase,
+    notes: Vec<String>,
+    stuck: bool,
+}
+
+impl RsrvCase {
+    /// the port is open at "opened port" and closed at a failed open (while the task sleeps after
+    /// a session error the descriptor is still held: `phys` lives to the end of the match arm)
+    fn record(&mut self, a: Announce, pty: &Option<Pty>) {
+        let fds = pty.as_ref().and_then(|p| p.slave_fds());
+        let (text, phase, want_open) = match &a {
+            Announce::Fail(d) => (format!("Fail({})", d.as_millis()), SrvPhase::Waiting, Some(false)),
+            Announce::Open => ("Open".to_string(), SrvPhase::Open, Some(true)),
+            Announce::Wait(d) => (format!("Wait({})", d.as_millis()), SrvPhase::Waiting, None),
+            Announce::Unparsed(m) => {
+                self.notes.push(format!("pty-error:no-delay-in-log-message:{}", m.replace(' ', "_")));
+                self.stuck = true;
+                return;
+            }
+        };
+        if let (Some(n), Some(want)) = (fds, want_open) {
+            if (n > 0) != want {
+                self.notes.push(format!("fds={n}@{}", self.seen.len()));
+            }
+        }
+        self.seen.push(text.clone());
+        self.announced.push(text);
+        if self.phase != SrvPhase::Done {
+            self.phase = phase;
+        }
+    }
+
+    /// waits for the announcement that the last action must cause
+    async fn next(&mut self, pty: &Option<Pty>) {
+        if self.stuck {
+            return;
+        }
+        match tokio::time::timeout(Duration::from_millis(PORT_WAIT_MS), self.rx.recv()).await {
+            Ok(Some(a)) => self.record(a, pty),
+            Ok(None) => {
+                self.seen.push("subscriber-dropped".into());
+                self.stuck = true;
+            }
+            Err(_) => {
+                self.seen.push("timeout".into());
+                // if the wording of the messages changed, say so instead of just timing out
+                let other = self.other.lock().unwrap();
+                if !other.is_empty() {
+                    let all = other.iter().map(|m| m.replace(' ', "_")).collect::<Vec<_>>().join("|");
+                    self.notes.push(format!("pty-error:no-announcement-recognised-among:{all}"));
+                }
+                self.stuck = true;
+            }
+        }
+    }
+
+    /// the task must end: it drops its strategy object; whatever it announces meanwhile is recorded
+    async fn wait_end(&mut self, pty: &Option<Pty>) {
+        self.phase = SrvPhase::Done;
+        let deadline = Instant::now() + Duration::from_millis(PORT_WAIT_MS);
+        loop {
+            // let the task run first, then look
+            tokio::task::yield_now().await;
+            while let Ok(a) = self.rx.try_recv() {
+                self.record(a, pty);
+            }
+            if self.seen.len() > 200 {
+                // a task that ignores the shutdown and retries without waiting
+                self.notes.push("runaway".into());
+                self.notes.push("task-alive".into());
+                self.stuck = true;
+                return;
+            }
+            if self.dropped.load(std::sync::atomic::Ordering::SeqCst) {
+                self.seen.push("End".into());
+                return;
+            }
+            if Instant::now() > deadline {
+                self.notes.push("task-alive".into());
+                self.stuck = true;
+                return;
+            }
+            tokio::time::sleep(Duration::from_millis(POLL_MS)).await;
+        }
+    }
+}
+
+static RSRV_CASE: std::sync::atomic::AtomicUsize = std::sync::atomic::AtomicUsize::new(0);
+
+/// pty rsrv r<min ms>.<max ms> <units> <script>
+///
+/// The production `spawn_rtu_server_task` on a device path that is a symbolic link (fresh
+/// directory per case) to the slave of a pseudo-terminal, with `doubling_retry_strategy(min, max)`.
+/// The task has no listener; it announces a failed open, a successful open and the end of a
+/// session through `tracing` events that carry the delay it then sleeps.  The harness installs a
+/// subscriber for the case and reads those.  Lock step without a gate: runtime and subscriber
+/// are single-threaded, so after an announcement the task cannot go on before the harness
+/// yields; the harness performs the step that decides the next attempt (`f` / `o`: remove / create
+/// the link) before it yields again.  Hence between an announcement with a delay and the next
+/// `f` / `o` / `S` / `X` step nothing that yields is allowed (`q`, `b`, `~` need an open port).
+async fn run_rsrv(tok: &[&str]) -> String {
+    let usage = "pty-error:usage: pty rsrv r<min ms>.<max ms> <units> <script>";
+    let Some((rmin, rmax)) = tok[2].strip_prefix('r').and_then(|x| x.split_once('.')) else {
+        return usage.into();
+    };
+    let (Ok(rmin), Ok(rmax)) = (rmin.parse::<u64>(), rmax.parse::<u64>()) else {
+        return usage.into();
+    };
+    let steps: Vec<&str> = if tok[4] == "-" { vec![] } else { tok[4].split(',').collect() };
+    let nanos = std::time::SystemTime::now()
+        .duration_since(std::time::UNIX_EPOCH)
+        .map(|d| d.subsec_nanos())
+        .unwrap_or(0);
+    let dir = std::env::temp_dir().join(format!(
+        "verif-rsrv-{}-{}-{}",
+        std::process::id(),
+        RSRV_CASE.fetch_add(1, std::sync::atomic::Ordering::Relaxed),
+        nanos
+    ));
+    if let Err(e) = std::fs::create_dir_all(&dir) {
+        return format!("pty-error:create {}: {e}", dir.display());
+    }
+    let link = dir.join("port");
+    // handlers exactly like `pty srv`
+    let log: Log = Arc::new(Mutex::new(Vec::new()));
+    let mut map: ServerHandlerMap<TestHandler> = ServerHandlerMap::new();
+    if tok[3] != "-" {
+        for u in tok[3].split(';') {
+            let (id, items) = u.split_once(':').unwrap_or((u, ""));
+            let unit: u8 = id.parse().unwrap();
+            let h = TestHandler {
+                unit,
+                points: Points::parse(items),
+                log: log.clone(),
+            }
+            .wrap();
+            map.add(UnitId::new(unit), h);
+        }
+    }
+    let (tx, rx) = tokio::sync::mpsc::unbounded_channel();
+    let other = Arc::new(Mutex::new(Vec::new()));
+    let calls = Arc::new(Mutex::new(Vec::new()));
+    let dropped = Arc::new(std::sync::atomic::AtomicBool::new(false));
+    // from here to the end of the case the events of this thread go to `Capture`
+    let _guard = tracing::subscriber::set_default(Capture { tx, other: other.clone() });
+    let retry = RetryTap {
+        inner: doubling_retry_strategy(Duration::from_millis(rmin), Duration::from_millis(rmax)),
+        calls: calls.clone(),
+        dropped: dropped.clone(),
+    };
+    let mut handle = match spawn_rtu_server_task(
+        link.to_str().unwrap(),
+        SerialSettings::default(),
+        Box::new(retry),
+        map,
+        DecodeLevel::nothing(),
+    ) {
+        Ok(h) => Some(h),
+        Err(e) => {
+            let _ = std::fs::remove_dir_all(&dir);
+            return format!("pty-error:spawn_rtu_server_task: {e}");
+        }
+    };
+    let mut c = RsrvCase {
+        rx,
+        other,
+        dropped,
+        seen: Vec::new(),
+        announced: Vec::new(),
+        phase: SrvPhase::Starting,
+        notes: Vec::new(),
+        stuck: false,
+    };
+    let mut pty: Option<Pty> = None;
+    let cmd_wait = Duration::from_millis(500);
+    for step in steps {
+        if c.stuck {
+            break;
+        }
+        match step {
+            "f" | "o" => {
+                if step == "f" {
+                    let _ = std::fs::remove_file(&link);
+                } else {
+                    if pty.is_none() {
+                        match Pty::open() {
+                            Ok(p) => pty = Some(p),
+                            Err(e) => {
+                                c.notes.push(format!("pty-error:{e}"));
+                                break;
+                            }
+                        }
+                    }
+                    if std::fs::symlink_metadata(&link).is_err() {
+                        if let Err(e) = std::os::unix::fs::symlink(&pty.as_ref().unwrap().slave_path, &link) {
+                            c.notes.push(format!("pty-error:symlink: {e}"));
+                            break;
+                        }
+                    }
+                }
+                // the first attempt / the attempt after the pending wait sees the path as it is now
+                if c.phase == SrvPhase::Starting || c.phase == SrvPhase::Waiting {
+                    c.next(&pty).await;
+                }
+            }
+            "x" => {
+                let _ = std::fs::remove_file(&link);
+                let was_open = c.phase == SrvPhase::Open;
+                // closing the master hangs up the slave: an open port reads EOF
+                pty = None;
+                if was_open {
+                    c.next(&pty).await;
+                }
+            }
+            "S" => {
+                if let Some(h) = handle.as_ref() {
+                    let _ = tokio::time::timeout(cmd_wait, h.shutdown()).await;
+                    if c.phase != SrvPhase::Done {
+                        c.wait_end(&pty).await;
+                    }
+                }
+            }
+            "X" => {
+                if handle.take().is_some() && c.phase != SrvPhase::Done {
+                    c.wait_end(&pty).await;
+                }
+            }
+            _ => {
+                if let Some(ms) = step.strip_prefix('~').and_then(|x| x.parse::<u64>().ok()) {
+                    if c.phase != SrvPhase::Open && c.phase != SrvPhase::Done {
+                        c.notes.push(format!("bad-step:{step}"));
+                        break;
+                    }
+                    tokio::time::sleep(Duration::from_millis(ms)).await;
+                } else if step.starts_with('q') || step.starts_with('b') {
+                    let (Some(p), true) = (pty.as_ref(), c.phase == SrvPhase::Open) else {
+                        c.notes.push(format!("bad-step:{step}"));
+                        break;
+                    };
+                    let _ = p.write_all(&unhex(&step[1..])).await;
+                    if step.starts_with('q') {
+                        // a request: whatever the server answers
+                        let mut reply = Vec::new();
+                        read_until_quiet(p, &mut reply).await;
+                        c.seen.push(format!("tx:{}", hex(&reply)));
+                    } else {
+                        // a frame that ends the session: the task announces the wait
+                        c.next(&pty).await;
+                    }
+                } else {
+                    c.notes.push(format!("bad-step:{step}"));
+                    break;
+                }
+            }
+        }
+    }
+    // end of the case: shutdown (if the script did not end the task), the task must end and
+    // release the port
+    if c.phase != SrvPhase::Done || !c.dropped.load(std::sync::atomic::Ordering::SeqCst) {
+        if let Some(h) = handle.as_ref() {
+            let _ = tokio::time::timeout(cmd_wait, h.shutdown()).await;
+        }
+        if !c.notes.iter().any(|n| n == "task-alive") {
+            c.stuck = false;
+            c.wait_end(&pty).await;
+        }
+    }
+    if let Some(p) = pty.as_ref() {
+        // nothing the server wrote may be left over (replies are collected by their `q` step)
+        let mut rest = Vec::new();
+        p.read_avail(&mut rest);
+        if !rest.is_empty() {
+            c.notes.push(format!("stray={}", hex(&rest)));
+        }
+        if !p.wait_slave_fds(false).await {
+            c.notes.push("port-not-released".into());
+        }
+    }
+    // every announcement is a call of the strategy object with the same value, in the same order
+    let calls = calls.lock().unwrap().join(",");
+    if calls != c.announced.join(",") {
+        c.notes.push(format!("strategy-calls={}", if calls.is_empty() { "-" } else { calls.as_str() }));
+    }
+    drop(handle);
+    drop(pty);
+    let _ = std::fs::remove_dir_all(&dir);
+    let mut out = if c.seen.is_empty() { "-".to_string() } else { c.seen.join(",") };
+    if !c.notes.is_empty() {
+        out.push(' ');
+        out.push_str(&c.notes.join(" "));
+    }
+    out
+}
+
 pub async fn run_pty(tok: &[&str]) -> String {
     match tok.get(1).copied() {
         Some("srv") if tok.len() >= 4 => run_srv(tok).await,
         Some("cli") if tok.len() >= 3 => run_cli(tok).await,
         Some("port") if tok.len() >= 4 => run_port(tok).await,
-        _ => "pty-error:usage: pty srv <units> <script> | pty cli <script> | pty port r<min>.<max> <script>".into(),
+        Some("rsrv") if tok.len() >= 5 => run_rsrv(tok).await,
+        _ => "pty-error:usage: pty srv <units> <script> | pty cli <script> | pty port r<min>.<max> <script> | pty rsrv r<min>.<max> <units> <script>".into(),
     }
 }
